@@ -331,6 +331,62 @@ pub fn run_check(replay: Option<Value>) -> i32 {
         out.sample = Some(desc);
         Some(out)
     });
+    // runs that the explicit methods end themselves (ProbablyStiff after about a thousand steps on y' = -2e4 (y - cos x)):
+    // asking for output does not change where and how the run ends
+    let kdims = vec![dim("method", &["DOPRI5", "DOP853"]), dim("direction", &["forward", "backward(reflected)"])];
+    lattice(&mut rep, "stiffend", &kdims, only.as_deref(), |key, idx| {
+        let m = [Method::DOPRI5, Method::DOP853][idx[0]];
+        let p0 = Prob {
+            name: "tracking y'=-2e4(y-cos x)".into(),
+            n: 1,
+            f: Arc::new(|t, y, d| d[0] = -2e4 * (y[0] - t.cos())),
+            jac: None,
+            flow: None,
+            y0: vec![1.0],
+            linear_homogeneous: false,
+        };
+        let p = if idx[1] == 1 { reflect(&p0) } else { p0 };
+        let xend = if idx[1] == 1 { -2.0 } else { 2.0 };
+        let c0 = Cfg::new(m, 0.0, xend, &p.y0).tol(1e-6, 1e-8);
+        let desc = json!({"key": key, "point": describe(&kdims, idx), "cfg": c0.json(&p.name)});
+        let mut out = CaseOut::default();
+        let plain = run(&p, &c0);
+        let ps = match &plain.out {
+            Outcome::Ok(s) => s,
+            _ => return None,
+        };
+        out.events = plain.st.n_ode;
+        if ps.status == Status::ProbablyStiff {
+            out.tag("run-ended-by-the-stiffness-test");
+        }
+        for (label, dense, te, ev) in [("{dense}", true, false, false), ("{t_eval}", false, true, false), ("{t_eval dense}", true, true, false), ("{events}", false, false, true), ("{dense events}", true, false, true)] {
+            let mut c = c0.clone();
+            c.dense = dense;
+            if te {
+                c.t_eval = Some((0..=20).map(|i| xend * i as f64 / 20.0).collect());
+            }
+            if ev {
+                c.events = vec![EventSpec::new(EvKind::Cos(40.0)), EventSpec::new(EvKind::T(0.1 * xend))];
+            }
+            let r = run(&p, &c);
+            out.events += r.st.n_ode;
+            match &r.out {
+                Outcome::Ok(s) => {
+                    let st = |s: &Solution| (s.nfev, s.njev, s.nlu, s.nstep, s.naccpt, s.nrejct);
+                    if s.status != ps.status || r.st.fp != plain.st.fp || st(s) != st(ps) {
+                        out.violations.push(
+                            Violation::new(key, "integration-perturbed", format!("subset {}: status {:?} (plain {:?}), statistics {:?} (plain {:?}), RHS record {}", label, s.status, ps.status, st(s), st(ps), if r.st.fp == plain.st.fp { "identical" } else { "differs" }), desc.clone()).with("method", mname(m)),
+                        );
+                    }
+                    out.validated += 1;
+                }
+                _ => out.violations.push(Violation::new(key, "outcome", format!("subset {} ended with {}", label, r.outcome_name()), desc.clone()).with("method", mname(m))),
+            }
+        }
+        out.fp = Some(plain.st.fp.as_u128() ^ 0x40);
+        out.sample = Some(desc);
+        Some(out)
+    });
     if only.is_some() {
         for v in &rep.violations {
             println!("replay: VIOLATED [{}]: {}\n{}", v.sig["check"], v.msg, serde_json::to_string_pretty(&v.case).unwrap());
@@ -344,6 +400,7 @@ pub fn run_check(replay: Option<Value>) -> i32 {
     rep.require("long-run", 6);
     rep.require("tiny-span", 12);
     rep.require("interval-across-zero", 60);
+    rep.require("run-ended-by-the-stiffness-test", 2);
     rep.rule = "for every lattice point the plain run and all 8 subsets of {t_eval, dense_output, non-terminal events} are run twice; oracle: identical 128-bit fingerprint of every non-Jacobian RHS call (time and state bits: the complete record of the integration), identical statistics, identical accepted steps and states when no t_eval is given, final state, repeatability; runs of more than 1.3e5 accepted steps with {dense}, {t_eval}, {t_eval dense}; distinct = distinct plain-run fingerprints".into();
     rep.finish()
 }
